@@ -1,4 +1,4 @@
-// Package ref holds independent reference implementations used by the checks.
+// Package rewards is an independent reference implementation of the block-reward arithmetic (C14).
 //
 // rewards.go: block-reward arithmetic (C14), written from the documented mechanism:
 //
@@ -13,7 +13,7 @@
 //
 // All decimals are 18-digit fixed point with truncation (round toward zero), as the chain's decimal
 // type. Only math/big is used; nothing is imported from the chain or the SDK.
-package ref
+package rewards
 
 import (
 	"math/big"
